@@ -205,7 +205,8 @@ def run(ctx):
                          "name": "il-%s-%s-%d" % (pr["pair"], pr["probe"], i)})
     ctx.count("interleavings", len(jobs))
     pairs = sorted({pr["pair"] for pr in pilot})
-    classes = ["unreadable", "parse_error", "compile_error", "missing_secret", "restart_required"]
+    classes = ["unreadable", "parse_error", "compile_error", "missing_secret", "missing_secret_basic", "missing_secret_pull_token",
+               "missing_secret_admin_token", "missing_secret_ref", "restart_required"]
     for pair in (pairs[:3] if ctx.quick else pairs):
         for cl in classes:
             jobs.append({"kind": "failed", "pair": pair, "class": cl, "name": "failed-%s-%s" % (pair, cl)})
